@@ -33,6 +33,8 @@ type RunCtx struct {
 	Viol     *Violation
 	Abandon  string // run abandoned for a reason that is not a verdict (precondition not met, unrelated library failure)
 	Crash    string // harness trouble
+	// PanicContext is appended to the detail of a library panic (scenarios that key known findings on the kind of world)
+	PanicContext string
 	// KnownHits are violations matched by a known finding inside the run (the run continues past them where possible)
 	KnownHits []Violation
 	Known     []KnownFinding
@@ -113,7 +115,7 @@ func (c *RunCtx) Lib(name string, f func()) {
 			if _, ok := r.(stopRun); ok {
 				panic(r)
 			}
-			c.Fail("panic:"+name, "library panicked in %s: %v\n%s", name, r, trimStack(debug.Stack()))
+			c.Fail("panic:"+name, "library panicked in %s%s: %v\n%s", name, c.PanicContext, r, trimStack(debug.Stack()))
 		}
 	}()
 	f()
